@@ -138,3 +138,36 @@ package ipnisync
 //@   loop 1: iteration ensures itercount("call:blockHook") == 1
 //@   ensures-local !walked ==> result != nil && count("call:blockHook") == 0
 //@   ensures-local walked ==> result == nil
+
+// ---------------------------------------------------------------------------
+// C03, publisher side: the head served is the current root, signed with the publisher's key.
+
+//@ protects Publisher.lock: root
+
+// SetRoot / ServeHTTP access the root only under the publisher's lock, which every path releases.
+//@ func (*Publisher).SetRoot
+//@   property C03
+//@   requires p != nil && !held(p.lock)
+//@   modifies p.root
+//@   ensures p.root == c
+
+// The head request: the root is read once under the lock; an undefined root is answered 204 without
+// signing anything; otherwise exactly the root just read is signed, for the publisher's topic, with the
+// publisher's private key, and the encoded signed head is what is written.
+//@ func (*Publisher).ServeHTTP
+//@   property C03
+//@   requires p != nil && w != nil && r != nil && r.URL != nil && !held(p.lock) && p.privKey != nil
+//@   assumes str(cid.Undef.str) == str("")
+//@   ghost signed := zero("[]byte")
+//@   at call newEncodedSignedHead#1: assert arg0 == rootCid && str(arg0.str) != str("") && str(arg1) == str(p.topic) && arg2 == p.privKey
+//@   at call newEncodedSignedHead#1: after ghost signed := result0
+//@   at call Write#1: assert arg1 == signed
+//@   ensures-local count("call:newEncodedSignedHead") <= 1 && count("call:Write") <= count("call:newEncodedSignedHead")
+//@   ensures-local !held(p.lock)
+
+// The signed head is built from exactly the arguments given, then encoded.
+//@ func newEncodedSignedHead
+//@   property C03
+//@   requires privKey != nil
+//@   at call NewSignedHead#1: assert arg0 == rootCid && str(arg1) == str(topic) && arg2 == privKey
+//@   ensures-local result1 == nil ==> count("call:NewSignedHead") == 1 && count("call:Encode") == 1 && before("call:NewSignedHead", "call:Encode")
